@@ -121,7 +121,10 @@
 //!
 //! [MDC]: https://crates.io/crates/log-mdc
 
-use chrono::{Local, Utc};
+use chrono::{
+    format::{Item, StrftimeItems},
+    Local, Utc,
+};
 use derivative::Derivative;
 use log::{Level, Record};
 use std::{default::Default, io, process, thread};
@@ -410,6 +413,12 @@ impl<'a> From<Piece<'a>> for Chunk {
                         }
                         None => "%+".to_owned(),
                     };
+
+                    // an invalid directive would make the `Display` of the formatted date fail at
+                    // encode time, which `write!` turns into a panic
+                    if StrftimeItems::new(&format).any(|item| matches!(item, Item::Error)) {
+                        return Chunk::Error(format!("invalid date format `{}`", format));
+                    }
 
                     let timezone = match formatter.args.get(1) {
                         Some(arg) => {
